@@ -1428,10 +1428,10 @@ func (c *Ctx) ruleEmbeddedNil(rule string, reach map[*ssa.Function]bool) {
 // getValueExceptions: key-domain arguments that are not mechanised. The origin of the key is part of the construct key,
 // so the same text with a key from another collection is a different construct.
 var getValueExceptions = map[string]string{
-	"core.(*JApiCore).checkUserType | core.userTypes.GetValue(name) [parameter name]":          "called for the keys of userTypes.Each, or for the type that Check() of such a type names as incorrect, which the dependency found in the set of added types = userTypes",
-	"core.(*JApiCore).checkUserType | core.rawUserTypes.GetValue(name) [parameter name]":       "userTypes is a subset of rawUserTypes: userTypes.Set is only called with a key of rawUserTypes.Each, or re-sets an existing key",
-	"core.(*JApiCore).compileUserTypeWithAllDependencies | dd.GetValue(name) [parameter name]": "name is a key of userTypes (checked non-nil a few lines above) or the name of the existing user type whose UsedUserTypes() failed; userTypes is a subset of rawUserTypes",
-	"core.(*JApiCore).compileUserTypeWithAllDependencies | dd.GetValue(n) [ranges over tt]":    "the loop skips every n whose userTypes.GetValue(n) is nil, and userTypes is a subset of rawUserTypes",
+	"core.(*JApiCore).checkUserType | recv.userTypes.GetValue(param#0) [parameter]":                                                       "called for the keys of userTypes.Each, or for the type that Check() of such a type names as incorrect, which the dependency found in the set of added types = userTypes",
+	"core.(*JApiCore).checkUserType | recv.rawUserTypes.GetValue(param#0) [parameter]":                                                    "userTypes is a subset of rawUserTypes: userTypes.Set is only called with a key of rawUserTypes.Each, or re-sets an existing key",
+	"core.(*JApiCore).compileUserTypeWithAllDependencies | recv.rawUserTypes.GetValue(param#0) [parameter]":                               "name is a key of userTypes (checked non-nil a few lines above) or the name of the existing user type whose UsedUserTypes() failed; userTypes is a subset of rawUserTypes",
+	"core.(*JApiCore).compileUserTypeWithAllDependencies | recv.rawUserTypes.GetValue(elem) [ranges over result#0 of fetchUsedUserTypes]": "the loop skips every n whose userTypes.GetValue(n) is nil, and userTypes is a subset of rawUserTypes",
 }
 
 func (c *Ctx) ruleGetValue(rule string, reach map[*ssa.Function]bool) {
